@@ -7,7 +7,7 @@ from ..runner import Leg, Res, libcall
 
 PROPERTY = 'C12'
 NEED_C = True
-RULE = ('Collections of 1..5 series (10 in the thorough tier: masks crossing a byte boundary), lengths 1..6, equal/unequal, '
+RULE = ('Collections of 1..5 series (10 in the thorough tier), one case in 6 with up to 18 (34 thorough) series: bit masks crossing one or several byte boundaries, lengths 1..6, equal/unequal, '
         'ndim 1..3, list or matrix container; initial average = own values or one of the series; mask with >= 1 selected '
         'series; window None or >= 1; penalty; engines Python dba, dba(use_c=True), dtw_cc.dba/dba_ndim, dba_loop. Oracles: '
         '(i) whenever the reference DP finds every (c, s_k) optimal path unique (exact tie counting): result = per-position '
@@ -24,7 +24,7 @@ ASSUMPTIONS = ['default inner distance; no psi / max_step (DBA needs an admissib
 @st.composite
 def _case(draw, nmax):
     ndim = draw(st.sampled_from([1, 1, 2, 3]))
-    n = draw(st.integers(1, nmax))
+    n = draw(gen.count(1, nmax, 18 if nmax <= 5 else 34, one_in=6))
     eq = draw(st.booleans())
     L0 = draw(st.integers(1, 6))
     regime = draw(st.sampled_from(['L', 'L', 'F']))
